@@ -95,7 +95,7 @@ impl CT {
             CT::Boolean => ColumnType::Boolean, CT::Money(p) => ColumnType::Money(*p), CT::Json => ColumnType::Json, CT::JsonBinary => ColumnType::JsonBinary, CT::Uuid => ColumnType::Uuid,
             CT::Custom(s) => ColumnType::Custom(Alias::new(s).into_iden()),
             CT::Enum(n, vs) => ColumnType::Enum { name: Alias::new(n).into_iden(), variants: vs.iter().map(|v| Alias::new(v).into_iden()).collect() },
-            CT::Array(e) => ColumnType::Array(std::sync::Arc::new(e.build()).into()),
+            CT::Array(e) => crate::util::array_of(e.build()),
             CT::Vector(l) => ColumnType::Vector(*l), CT::Cidr => ColumnType::Cidr, CT::Inet => ColumnType::Inet, CT::MacAddr => ColumnType::MacAddr, CT::LTree => ColumnType::LTree,
         }
     }
